@@ -46,8 +46,14 @@ with cf.ThreadPoolExecutor(jobs) as ex:
     for n, prop, rc, first, replay in ex.map(one, names):
         print(f"{n} [{prop}] -> exit {rc} | {replay} | {first[:150]}", flush=True)
         res.append({"seed": n, "property": prop, "exit": rc, "first_failed_obligation": first, "replay": replay})
-if not prefix:  # only a full run rewrites the committed table
-    json.dump(res, open(f"{root}/RESULTS.json", "w"), indent=1)
+# a full run rewrites the committed table; a partial run (prefix) updates the entries of the seeds it ran
+table = {} if not prefix else {r["seed"]: r for r in (json.load(open(f"{root}/RESULTS.json")) if os.path.exists(f"{root}/RESULTS.json") else [])}
+for r in res:
+    table[r["seed"]] = r
+def _key(name):
+    p_, _, k_ = name.rpartition("_")
+    return (p_, int(k_) if k_.isdigit() else 0)
+json.dump([table[k] for k in sorted(table, key=_key)], open(f"{root}/RESULTS.json", "w"), indent=1)
 caught = sum(1 for r in res if r["exit"] == 1)
 print(f"{caught}/{len(res)} seeds reported as VIOLATION; exit 2 (undecided): {sum(1 for r in res if r['exit'] == 2)}; "
       f"exit 0 (missed): {sum(1 for r in res if r['exit'] == 0)}; concrete replays: {sum(1 for r in res if r['replay'] == 'concrete')}")
